@@ -17,6 +17,14 @@ SCRIPTS = {
     "many_streams": {"c": [W(0, 5000, True), W(4, 5000, True), W(8, 5000, True), W(2, 5000, True)]},
     "echo": {"c": [W(0, 3000, True)], "s": [W(0, 3000, True, g=("rxfin", 0))]},
     "hs_only": {"c": [{"op": "ping", "uid": 1}]},
+    # the server's window is full when the client's address changes: on the not yet validated path the
+    # anti-amplification budget and the congestion budget both apply
+    "bulk_down": {"c": [W(0, 50, True)], "s": [W(0, 40000, True, g=("rxfin", 0))]},
+    "bulk_down_chatty": {"c": [W(0, 50, True)] + [W(4 * i, 30, True, g=("rx", 0, 1200 * i)) for i in range(1, 12)],
+                         "s": [W(0, 40000, True, g=("rxfin", 0))]},
+    # resumed connection, early data written before the first transmit (only with the zr_* configurations)
+    "zr_bulk": {"c": [W(0, 6000, g="pre"), W(0, 20000, True)]},
+    "zr_echo": {"c": [W(0, 900, True, g="pre")], "s": [W(0, 3000, True, g=("rxfin", 0))]},
 }
 CFGS = {
     "reno": {"cc": "reno"},
@@ -28,6 +36,10 @@ CFGS = {
     # data waiting and the window exhausted
     "blackout": {"blackout_from": 0.025, "blackout_until": 0.30},
     "blackout_cubic": {"cc": "cubic", "blackout_from": 0.031, "blackout_until": 0.5},
+    # 0-RTT packets are in flight in the application space when the front end makes the client start over
+    "zr_plain": {"tickets": "obtain"},
+    "zr_retry": {"tickets": "obtain", "retry": True},
+    "zr_vn_cubic": {"tickets": "obtain", "vn": True, "cc": "cubic"},
 }
 
 
@@ -48,7 +60,7 @@ def goal(w):
 
 def factory(sc):
     kw = {"max_steps": 700, "horizon": 60.0, "deviations": tuple(sc.get("dev", ("drop", "dup", "delay", "late")))}
-    return dict(CFGS[sc["cfg"]]), SCRIPTS[sc["script"]], [CongestionMonitor()], kw, goal
+    return netsim.resolve_tickets(dict(CFGS[sc["cfg"]])), SCRIPTS[sc["script"]], [CongestionMonitor()], kw, goal
 
 
 netcheck.register("c08", factory)
@@ -67,18 +79,27 @@ def run_wire(ctx):
         for c in CFGS:
             if c.startswith("blackout") and s not in ("bulk_up", "bulk_both", "many_streams"):
                 continue
+            if c.startswith("zr_") != s.startswith("zr_"):
+                continue
+            if s.startswith("bulk_down") and c not in ("reno", "cubic_v2"):
+                continue
             if quick and c in ("bigchain", "cubic_v2") and s not in ("bulk_up", "hs_only"):
                 continue
             sc["%s|%s" % (s, c)] = {"script": s, "cfg": c}
     agg = netcheck.explore_scenarios(ctx, "c08", {k: v for k, v in sc.items()}, 0, "wire_d0", sig_extra=sig_extra)
     small = {k: dict(v, dev=("drop", "delay", "late")) for k, v in sc.items()
-             if v["script"] in ("echo", "hs_only", "early_bulk")}
+             if v["script"] in ("echo", "hs_only", "early_bulk", "zr_echo")}
     if quick:
         keys = sorted(small)
         small = {k: small[k] for i, k in enumerate(keys) if i % 3 == ctx.seed % 3}
     # tail loss of a congestion-limited burst: PTO with stream data still waiting
     small["bulk_up|reno"] = dict(sc["bulk_up|reno"], dev=("drop",))
     small["bulk_up|cubic_v2"] = dict(sc["bulk_up|cubic_v2"], dev=("drop",))
+    for s_ in ("bulk_down", "bulk_down_chatty"):
+        for c_ in ("reno", "cubic_v2"):
+            if quick and (s_, c_) not in (("bulk_down", "reno"), ("bulk_down_chatty", "cubic_v2")):
+                continue
+            small["%s|%s" % (s_, c_)] = {"script": s_, "cfg": c_, "dev": ("rebind",)}
     netcheck.explore_scenarios(ctx, "c08", small, 1, "wire_d1", sig_extra=sig_extra)
     if not quick:
         d2 = {k: v for k, v in small.items() if v["script"] in ("hs_only", "echo")}
